@@ -44,7 +44,8 @@ def eval_case(case):
                 if df:
                     out.append(O.V("(f) deleting the project-wide absence steps does not give the result of simulating without absence",
                                    "C10/f-fifo" if op.get("rule") == 4 else "C10/f", {"diff": df[:4], "abs": op["abs"], "rule": op.get("rule")}))
-    return {"violations": out, "sig": simcheck.behaviour_sig(S, trace) + (deleted, tuple(sorted(set(op.get("abs", []))))[:4]),
+    from .. import modelrun
+    return {"violations": out, "disagreements": modelrun.compare(case, trace, modelrun.FULL), "sig": simcheck.behaviour_sig(S, trace) + (deleted, tuple(sorted(set(op.get("abs", []))))[:4]),
             "hist": dict(simcheck.base_hist(S, trace), deletion_checked=int(deleted)),
             "nontrivial": (rec.get("dump") or {}).get("time", 0) >= 2 and bool(op.get("abs")),
             "summary": {"time": (rec.get("dump") or {}).get("time"), "deletion_checked": deleted}}
